@@ -347,14 +347,25 @@ func nodeText(prog *Prog, n ast.Node) string {
 
 func replayObligation(prog *Prog, c *VC, o *Obligation, dir, repo string) *replayResult {
 	rep := &replayResult{Obligation: o.Name, Kind: o.Kind, Clause: o.Text, Function: c.fn.Name, At: o.Pos, SolverStatus: o.Status, Solver: o.Solver}
-	if o.Status != "sat" {
-		rep.SolverOutput = trunc(o.Model, 2000)
-		rep.Note = fmt.Sprintf("obligation not discharged (solver status %s on all back ends); no model to replay", o.Status)
-		if o.Status == "error" {
-			rep.Note += "; solver error: " + trunc(o.Model, 400)
+	if o.Status == "sat" {
+		replayRun(prog, c, o, dir, repo, rep, false)
+		if rep.Reproduced {
+			return rep
 		}
-		return rep
+	} else {
+		rep.SolverOutput = trunc(o.Model, 2000)
+		rep.Note = fmt.Sprintf("obligation not discharged (solver status %s on all back ends); no model to replay; ", o.Status)
+		if o.Status == "error" {
+			rep.Note += "solver error: " + trunc(o.Model, 400) + "; "
+		}
 	}
+	// fallback: the violated clause is evaluated on the real code over a seeded sweep of boundary inputs
+	rep.Note += "fallback input sweep: "
+	replayRun(prog, c, o, dir, repo, rep, true)
+	return rep
+}
+
+func replayRun(prog *Prog, c *VC, o *Obligation, dir, repo string, rep *replayResult, sweep bool) {
 	fi := c.fn
 	pkg := fi.Pkg
 	imports := map[string]string{}
@@ -365,10 +376,22 @@ func replayObligation(prog *Prog, c *VC, o *Obligation, dir, repo string) *repla
 		imports[p.Path()] = p.Name()
 		return p.Name()
 	}
-	decls, names, shown, note, raw := c.buildInputs(o, dir, qual)
-	rep.Inputs = shown
-	rep.SolverOutput = trunc(raw, 1500)
-	rep.Note = note
+	var decls, names []string
+	if sweep {
+		var ok bool
+		decls, names, ok = c.sweepDecls(qual)
+		if !ok {
+			rep.Note += "not attempted (an input type is not generated)"
+			return
+		}
+	} else {
+		var shown map[string]string
+		var note, raw string
+		decls, names, shown, note, raw = c.buildInputs(o, dir, qual)
+		rep.Inputs = shown
+		rep.SolverOutput = trunc(raw, 1500)
+		rep.Note = note
+	}
 
 	var body strings.Builder
 	sig := fi.Obj.Type().(*types.Signature)
@@ -472,7 +495,7 @@ func replayObligation(prog *Prog, c *VC, o *Obligation, dir, repo string) *repla
 	default:
 		if K == nil {
 			rep.Note += "no contract function to evaluate at run time; "
-			return rep
+			return
 		}
 		fmt.Fprintf(&body, "\tverifPhase = \"pre\"\n")
 		a := names
@@ -491,6 +514,9 @@ func replayObligation(prog *Prog, c *VC, o *Obligation, dir, repo string) *repla
 	}
 	var src strings.Builder
 	src.WriteString("//go:build verif\n\npackage " + pkg.Types.Name() + "\n\nimport (\n\t\"fmt\"\n\t\"strings\"\n\t\"testing\"\n")
+	if sweep {
+		src.WriteString("\t\"math/rand\"\n")
+	}
 	needMath := false
 	for _, d := range decls {
 		if strings.Contains(d, "math.Float") {
@@ -514,14 +540,32 @@ func replayObligation(prog *Prog, c *VC, o *Obligation, dir, repo string) *repla
 	src.WriteString(")\n\nvar verifPhase string\n\n")
 	src.WriteString("func verifMk(bs []byte, n, c int) []byte {\n\tb := make([]byte, n, c)\n\tcopy(b, bs)\n\treturn b\n}\n\n")
 	src.WriteString("func verifPad(bs []byte, n int) []byte {\n\tb := make([]byte, n)\n\tcopy(b, bs)\n\treturn b\n}\n\nvar _ = verifPad\nvar _ = verifMk\nvar _ = strings.HasPrefix\n\n")
-	src.WriteString("func TestVerifReplay(t *testing.T) {\n")
+	if sweep {
+		src.WriteString(sweepHelpers)
+		src.WriteString("func TestVerifReplay(t *testing.T) {\n\tverifRng = rand.New(rand.NewSource(" + fmt.Sprint(replaySeed()) + "))\n\tfor verifIt := 0; verifIt < 4000; verifIt++ {\n\t\tif verifOne(verifIt) {\n\t\t\treturn\n\t\t}\n\t}\n\tfmt.Println(\"VERIF-REPLAY-HOLDS\")\n}\n\n")
+		src.WriteString("func verifOne(verifIt int) (violated bool) {\n")
+	} else {
+		src.WriteString("func TestVerifReplay(t *testing.T) {\n")
+	}
 	for _, d := range decls {
 		src.WriteString("\t" + d + "\n")
 	}
+	if sweep {
+		src.WriteString("\tverifDesc := fmt.Sprintf(\"%#v\", []any{" + strings.Join(names, ", ") + "})\n")
+		src.WriteString("\tdefer func() {\n\t\tif r := recover(); r != nil {\n\t\t\tif verifPhase != \"pre\" && (verifPhase == \"run\" || strings.HasPrefix(fmt.Sprint(r), \"verif:\")) {\n\t\t\t\tfmt.Printf(\"VERIF-REPLAY-VIOLATED phase=%s %v inputs=%s\\n\", verifPhase, r, verifDesc)\n\t\t\t\tviolated = true\n\t\t\t}\n\t\t}\n\t}()\n")
+		src.WriteString(bodyS)
+		src.WriteString("\treturn false\n}\n")
+	}
+	if !sweep {
 	src.WriteString("\tdefer func() {\n\t\tif r := recover(); r != nil {\n\t\t\tif verifPhase == \"pre\" {\n\t\t\t\tfmt.Printf(\"VERIF-REPLAY-PRECONDITION %v\\n\", r)\n\t\t\t} else {\n\t\t\t\tfmt.Printf(\"VERIF-REPLAY-VIOLATED phase=%s %v\\n\", verifPhase, r)\n\t\t\t}\n\t\t}\n\t}()\n")
 	src.WriteString(bodyS)
 	src.WriteString("\tfmt.Println(\"VERIF-REPLAY-HOLDS\")\n}\n")
-	rep.TestSource = src.String()
+	}
+	if sweep && rep.TestSource != "" {
+		rep.TestSource += "\n// ---- fallback sweep ----\n" + src.String()
+	} else {
+		rep.TestSource = src.String()
+	}
 
 	// run through an overlay
 	pkgDir := filepath.Dir(prog.fset.Position(fi.Decl.Pos()).Filename)
@@ -540,8 +584,12 @@ func replayObligation(prog *Prog, c *VC, o *Obligation, dir, repo string) *repla
 	cmd := exec.CommandContext(ctx, "bash", "-c", sh)
 	cmd.Env = append(os.Environ(), "GOFLAGS=-mod=mod", "GOPROXY=off", "GOSUMDB=off", "GOTOOLCHAIN=local")
 	out, _ := cmd.CombinedOutput()
+	if sweep && rep.TestOutput != "" {
+		rep.TestOutput += "\n---- fallback sweep ----\n"
+	}
+	prevOut := rep.TestOutput
 	rep.TestCmd = "go test -tags verif -overlay <ov.json> -vet=off -count=1 -timeout 60s -run '^TestVerifReplay$' . (in " + strings.TrimPrefix(pkgDir, repo+"/") + ")"
-	rep.TestOutput = trunc(string(out), 3000)
+	rep.TestOutput = prevOut + trunc(string(out), 3000)
 	switch {
 	case strings.Contains(string(out), "VERIF-REPLAY-VIOLATED"):
 		rep.Reproduced = true
@@ -555,5 +603,101 @@ func replayObligation(prog *Prog, c *VC, o *Obligation, dir, repo string) *repla
 	default:
 		rep.Note += "replay did not run to completion"
 	}
-	return rep
+}
+
+func replaySeed() int64 {
+	var s int64 = 1
+	fmt.Sscanf(os.Getenv("VERIF_SEED"), "%d", &s)
+	return s
+}
+
+const sweepHelpers = `
+var verifRng *rand.Rand
+
+const verifAlpha = "0123456789.-+eEs {}[]:,"
+
+var verifInts = []int64{0, 1, 2, -1, -2, 127, 128, 129, 255, 256, 16383, 16384, 1<<21 - 1, 1 << 21, 1<<28 - 1, 1 << 28, 1<<31 - 1, 1 << 31, -(1 << 31), 1<<32 - 1, 1 << 32, 1 << 35, 1<<63 - 1, -(1 << 63), 999999999, 1000000000, 9223372036, 9223372037, 315576000000, 315576000001}
+var verifLens = []int{0, 1, 2, 3, 9, 10, 11, 127, 128, 129, 130, 255, 256, 16383, 16384, 16385}
+
+func verifInt(it int) int64 {
+	if verifRng.Intn(3) == 0 {
+		return int64(verifRng.Uint64())
+	}
+	v := verifInts[verifRng.Intn(len(verifInts))]
+	if verifRng.Intn(4) == 0 {
+		v = -v
+	}
+	return v
+}
+
+func verifBytes(it int) []byte {
+	n := verifLens[verifRng.Intn(len(verifLens))]
+	if it < len(verifLens) {
+		n = verifLens[it]
+	}
+	b := make([]byte, n, n+verifRng.Intn(3)*8)
+	switch verifRng.Intn(4) {
+	case 0:
+		for i := range b {
+			b[i] = byte(verifRng.Intn(256))
+		}
+	case 1:
+		for i := range b {
+			b[i] = 0x80 | byte(verifRng.Intn(128))
+		}
+	case 2:
+		for i := range b {
+			b[i] = verifAlpha[verifRng.Intn(len(verifAlpha))]
+		}
+	default:
+		for i := range b {
+			b[i] = byte(verifRng.Intn(4))
+		}
+	}
+	return b
+}
+`
+
+// sweepDecls declares the inputs of the function under test from the sweep generators.
+func (c *VC) sweepDecls(qual types.Qualifier) (decls, names []string, ok bool) {
+	for i, in := range c.inputs {
+		key := fmt.Sprintf("in%d", i)
+		names = append(names, key)
+		ts := types.TypeString(in.Type, qual)
+		switch u := in.Type.Underlying().(type) {
+		case *types.Basic:
+			switch {
+			case u.Info()&types.IsString != 0:
+				decls = append(decls, fmt.Sprintf("var %s %s = %s(string(verifBytes(verifIt)))", key, ts, ts))
+			case u.Kind() == types.Bool:
+				decls = append(decls, fmt.Sprintf("var %s %s = verifRng.Intn(2) == 0", key, ts))
+			case u.Info()&types.IsInteger != 0:
+				decls = append(decls, fmt.Sprintf("var %s %s = %s(verifInt(verifIt))", key, ts, ts))
+			default:
+				return nil, nil, false
+			}
+		case *types.Slice:
+			eb, isB := u.Elem().Underlying().(*types.Basic)
+			if !isB || eb.Kind() != types.Uint8 {
+				return nil, nil, false
+			}
+			decls = append(decls, fmt.Sprintf("var %s %s = %s(verifBytes(verifIt))", key, ts, ts))
+		case *types.Pointer:
+			stt, isS := u.Elem().Underlying().(*types.Struct)
+			if !isS {
+				return nil, nil, false
+			}
+			var fs []string
+			for fi := 0; fi < stt.NumFields(); fi++ {
+				f := stt.Field(fi)
+				if b, ok := f.Type().Underlying().(*types.Basic); ok && b.Info()&types.IsInteger != 0 {
+					fs = append(fs, fmt.Sprintf("%s: %s(verifInt(verifIt))", f.Name(), types.TypeString(f.Type(), qual)))
+				}
+			}
+			decls = append(decls, fmt.Sprintf("var %s %s = &%s{%s}", key, ts, types.TypeString(u.Elem(), qual), strings.Join(fs, ", ")))
+		default:
+			return nil, nil, false
+		}
+	}
+	return decls, names, true
 }
